@@ -173,6 +173,12 @@ def check_case(case, ctx):
     except Exception as e:
         ctx.count('build_failed:' + type(e).__name__)
         return
+    if case.get('edited'):
+        with monitor.suspended():
+            case = dict(case, edits_applied=netgen.random_edits(c, rng, allow_interface=False))
+            CUR['case'] = case
+            net = refsem.net_of(c)
+        ctx.count('edited_circuits')
     n = len(net.inputs)
     sh = refsem.structural_hash(net)
     results = {'Circuit.evaluate_circuit': {}, 'Circuit.evaluate_full_circuit': {}, 'Circuit.evaluate_circuit_outputs': {}}
@@ -230,7 +236,7 @@ def gen_case(rng, spec):
     shape = rng.choice(netgen.SHAPES)
     net = netgen.rand_net(rng, shape=shape, max_in=5, max_g=spec.get('max_g', 12), max_arity=4)
     return {'kind': 'random', 'shape': shape, 'net': netgen.describe(net), 'rseed': rng.getrandbits(32),
-            'shuffle': rng.random() < 0.2}
+            'shuffle': rng.random() < 0.2, 'edited': rng.random() < 0.3}
 
 
 def run_tables(ctx):
